@@ -43,6 +43,35 @@ mod imp {
             }
         };
     }
+    macro_rules! gen_opt {
+        ($name:ident, $lname:ident, $T:ty, $E:ty, $conv:expr) => {
+            /// range / linspace with start and / or step omitted (None)
+            pub fn $name(c: Cont, a: Option<f64>, b: f64, st: Option<f64>) -> Outcome<Vec<Cell>> {
+                let cv: fn(f64) -> $T = $conv;
+                let (a, b, st) = (a.map(cv), cv(b), st.map(cv));
+                catch(|| match c {
+                    Cont::Vec => <Vec<$E> as Vec1Create<$E>>::range(a, b, st).cells(),
+                    Cont::Deque => <VecDeque<$E> as Vec1Create<$E>>::range(a, b, st).cells(),
+                    Cont::Array => <Array1<$E> as Vec1Create<$E>>::range(a, b, st).cells(),
+                    _ => <ProbeOut<$E> as Vec1Create<$E>>::range(a, b, st).cells(),
+                })
+            }
+            pub fn $lname(c: Cont, a: Option<f64>, b: f64, n: usize) -> Outcome<Vec<Cell>> {
+                let cv: fn(f64) -> $T = $conv;
+                let (a, b) = (a.map(cv), cv(b));
+                catch(|| match c {
+                    Cont::Vec => <Vec<$E> as Vec1Create<$E>>::linspace(a, b, n).cells(),
+                    Cont::Deque => <VecDeque<$E> as Vec1Create<$E>>::linspace(a, b, n).cells(),
+                    Cont::Array => <Array1<$E> as Vec1Create<$E>>::linspace(a, b, n).cells(),
+                    _ => <ProbeOut<$E> as Vec1Create<$E>>::linspace(a, b, n).cells(),
+                })
+            }
+        };
+    }
+    gen_opt!(range_opt_i32, linspace_opt_i32, i32, i32, |v| v as i32);
+    gen_opt!(range_opt_usize, linspace_opt_usize, usize, usize, |v| v as usize);
+    gen_opt!(range_opt_f64, linspace_opt_f64, f64, f64, |v| v);
+    gen_opt!(range_opt_f32, linspace_opt_f32, f32, f32, |v| v as f32);
     gen_int!(range_i32, linspace_i32, i32, Int32Type);
     gen_int!(range_i64, linspace_i64, i64, Int64Type);
     gen_int!(range_usize, linspace_usize, usize, UInt64Type);
@@ -343,6 +372,64 @@ fn check_ranges(ctx: &mut Ctx, bound: i64) {
                         viol(ctx, "range(floats)", None, json!({"family": fam, "type": "f64", "container": format!("{c:?}"), "start": a, "end": b, "step": st}), show_cells(&want), show_outcome(&got));
                     } else {
                         ctx.traces += 1;
+                    }
+                }
+            }
+        }
+    }
+}
+
+/// an omitted start means 0, an omitted step means 1: every combination of omitted / explicit arguments gives
+/// the progression of the model
+fn check_range_defaults(ctx: &mut Ctx, bound: i64) {
+    let fam = "range-defaults";
+    type RunO = fn(Cont, Option<f64>, f64, Option<f64>) -> Outcome<Vec<Cell>>;
+    type RunLO = fn(Cont, Option<f64>, f64, usize) -> Outcome<Vec<Cell>>;
+    for (tname, float, signed, run, lrun) in [
+        ("i32", false, true, range_opt_i32 as RunO, linspace_opt_i32 as RunLO),
+        ("usize", false, false, range_opt_usize as RunO, linspace_opt_usize as RunLO),
+        ("f64", true, true, range_opt_f64 as RunO, linspace_opt_f64 as RunLO),
+        ("f32", true, true, range_opt_f32 as RunO, linspace_opt_f32 as RunLO),
+    ] {
+        let grid: Vec<f64> = if float { (-4 * bound..=4 * bound).map(|v| v as f64 / 4.0).collect() } else { (if signed { -bound } else { 0 }..=bound).map(|v| v as f64).collect() };
+        let cell = |x: f64| if float { Cell::f(x) } else { Cell::I(x as i64) };
+        for &b in &grid {
+            for (a, st) in [(None, None), (None, Some(1.0)), (Some(0.0), None), (None, Some(2.0)), (Some(1.0), None), (None, Some(-1.0)), (None, Some(0.5))] {
+                if (!float && st == Some(0.5)) || (!signed && st.map_or(false, |s: f64| s < 0.0)) {
+                    continue;
+                }
+                ctx.states += 1;
+                ctx.fam(fam).states += 1;
+                ctx.nontrivial(fam, hash_bytes(format!("{tname}{a:?},{b},{st:?}").as_bytes()));
+                let want: Vec<Cell> = range_model(a.unwrap_or(0.0), b, st.unwrap_or(1.0)).into_iter().map(cell).collect();
+                for c in [Cont::Probe, Cont::Vec, Cont::Deque, Cont::Array] {
+                    ctx.transitions += 1;
+                    mc_adapt::probe::probe_reset();
+                    let got = run(c, a, b, st);
+                    let log = mc_adapt::probe::probe_take();
+                    ctx.eval(fam, outcome_hash(&got));
+                    if matches!(&got, Outcome::Ok(g) if cells_eq(g, &want, exact_eq)) && log.faults.is_empty() {
+                        ctx.traces += 1;
+                    } else {
+                        viol(ctx, "range(omitted start / step)", None, json!({"family": fam, "type": tname, "container": format!("{c:?}"), "start": a, "end": b, "step": st}), show_cells(&want), format!("{} {:?}", show_outcome(&got), log.faults));
+                    }
+                }
+            }
+            // linspace with the start omitted == linspace from 0
+            for n in 0..=4usize {
+                for c in [Cont::Probe, Cont::Vec, Cont::Deque, Cont::Array] {
+                    ctx.transitions += 1;
+                    let (x, y) = (lrun(c, None, b, n), lrun(c, Some(0.0), b, n));
+                    ctx.eval(fam, outcome_hash(&x));
+                    let same = match (&x, &y) {
+                        (Outcome::Ok(p), Outcome::Ok(q)) => cells_eq(p, q, exact_eq),
+                        (Outcome::Panic(_), Outcome::Panic(_)) => true,
+                        _ => false,
+                    };
+                    if same {
+                        ctx.traces += 1;
+                    } else {
+                        viol(ctx, "linspace(omitted start)", None, json!({"family": fam, "type": tname, "container": format!("{c:?}"), "end": b, "n": n}), show_outcome(&y), show_outcome(&x));
                     }
                 }
             }
@@ -792,6 +879,9 @@ fn main() {
     if only.as_deref().map_or(true, |f| f == "range") {
         check_ranges(&mut ctx, bound);
     }
+    if only.as_deref().map_or(true, |f| f == "range-defaults") {
+        check_range_defaults(&mut ctx, bound);
+    }
     if only.as_deref().map_or(true, |f| f == "linspace") {
         check_linspace(&mut ctx, bound);
     }
@@ -817,7 +907,7 @@ fn main() {
     ctx.sample(json!({"collector": "try_collect_trusted_vec1", "container": "Array", "list_len": 4, "errors_at": [1, 3], "model": "Err(e1)"}));
     ctx.sample(json!({"buffer": "write_trust_iter", "buffer_len": 3, "iter_len": 1, "model": "[10,10,10] (broadcast)"}));
     let meta = Meta {
-        rule: "finite products: range(start,end,step) over integer grids (i32, i64, usize, u64; start,end in -B..=B, steps +-1..4) and the dyadic float grid (multiples of 1/4), linspace(start,end,n) n in 0..=9, full / empty, every collector (plain, trusted, with length, optional -> null-encoded, fallible plain / trusted with an error at every position and every pair of positions) on lists of length 0..=L into every container (instrumented, Vec, VecDeque, Array1, Polars chunked), write_trust_iter for every (buffer length, iterator length) pair on an instrumented buffer (exactly-once monitor) and on the real buffers. Oracles: the arithmetic progression strictly before end; n equally spaced points; the list itself; first error; all slots = iterator / broadcast or error and no write. Non-trivial = distinct parameter points. Also the same sequence through all 19 iterator shapes the library declares trusted (iterator-shapes): TrustedLen::len / is_empty, the collectors, writes into every container and caller-buffer layout (equal length, broadcast, mismatch; DESIGN 5.15).".into(),
+        rule: "finite products: range(start,end,step) over integer grids (i32, i64, usize, u64; start,end in -B..=B, steps +-1..4) and the dyadic float grid (multiples of 1/4), linspace(start,end,n) n in 0..=9, full / empty, every collector (plain, trusted, with length, optional -> null-encoded, fallible plain / trusted with an error at every position and every pair of positions) on lists of length 0..=L into every container (instrumented, Vec, VecDeque, Array1, Polars chunked), write_trust_iter for every (buffer length, iterator length) pair on an instrumented buffer (exactly-once monitor) and on the real buffers. Oracles: the arithmetic progression strictly before end; n equally spaced points; the list itself; first error; all slots = iterator / broadcast or error and no write. Non-trivial = distinct parameter points. Also the same sequence through all 19 iterator shapes the library declares trusted (iterator-shapes): TrustedLen::len / is_empty, the collectors, writes into every container and caller-buffer layout (equal length, broadcast, mismatch; DESIGN 5.15). Round 8 (DESIGN 5.17): range-defaults - every combination of omitted / explicit start and step (i32, usize, f64, f32, every container) against the progression from 0 with step 1; linspace with the start omitted.".into(),
         bounds: json!({"B": bound, "L": max_len}),
         assumptions: vec!["float ranges on dyadic grids only (DESIGN 5.7)".into(), "the default Vec1::try_collect_from_iter (unwrap) of the instrumented container is not driven".into()],
         exhaustive: true,
